@@ -159,6 +159,36 @@ def run(ctx):
             i = next(i for i in range(4) if oh[i] != of[i])
             oracle_fail.append({"why": "output after switching one preference differs from a fresh session", "pref": [k, a, b], "call": ([{"op": "set_mathml"}] + getters_reqs())[i], "after_history": oh[i], "fresh": of[i],
                                 "lines": hist_lines, "fresh_lines": fresh_lines})
+    # the ORDER in which the same preferences are set does not matter: two fresh sessions set the same assignment in two random orders
+    # (the host's way of giving the language -- Language=Auto, then LanguageAuto -- included; LanguageAuto is only accepted after Language=Auto)
+    n_perm = 0
+    PERM = {k: v for k, v in PREF_CHOICES.items() if k not in ("DecimalSeparators", "BlockSeparators")}      # (the two derived lists are overwritten by Language / DecimalSeparator: a documented coupling)
+    for _ in range(25 if ctx.tier == "quick" else 600):
+        items = [(k, rng.choice(v)) for k, v in PERM.items() if rng.random() < 0.5 or k in ("Language", "SpeechStyle")]
+        if rng.random() < 0.6:
+            items = [it for it in items if it[0] != "Language"] + [("Language", "Auto"), ("LanguageAuto", rng.choice(PREF_CHOICES["Language"][:8]))]
+        def an_order():
+            o = list(items)
+            rng.shuffle(o)
+            if ("Language", "Auto") in o:
+                i, j = o.index(("Language", "Auto")), next(k for k, it in enumerate(o) if it[0] == "LanguageAuto")
+                if i > j:
+                    o[i], o[j] = o[j], o[i]
+            return o
+        o1, o2 = an_order(), an_order()
+        e = rng.choice(CACHE_SENSITIVE + exprs[:6])
+        l1 = core.prelude([{"op": "set_pref", "name": k, "value": v} for k, v in o1]) + [{"op": "set_mathml", "xml": e}] + getters_reqs()
+        l2 = core.prelude([{"op": "set_pref", "name": k, "value": v} for k, v in o2]) + [{"op": "set_mathml", "xml": e}] + getters_reqs()
+        r1, r2 = im.run([{"op": "session"}] + l1)[1:], im.run([{"op": "session"}] + l2)[1:]
+        n_perm += 1
+        n_calls += len(l1) + len(l2)
+        if any(r.get("r") != "ok" for r in r1[:len(l1) - 4]) or any(r.get("r") != "ok" for r in r2[:len(l2) - 4]):
+            continue            # a rejected request: the two sessions do not hold the same preferences
+        a1, a2 = outputs(r1[-4:]), outputs(r2[-4:])
+        if a1 != a2:
+            i = next(i for i in range(4) if a1[i] != a2[i])
+            oracle_fail.append({"why": "the same preferences set in another order give another output", "order_1": [list(x) for x in o1], "order_2": [list(x) for x in o2],
+                                "call": ([{"op": "set_mathml"}] + getters_reqs())[i], "output_1": a1[i], "output_2": a2[i], "lines": l1, "fresh_lines": l2})
     # preference round trip on a fixed expression
     n_rt = 0
     for _ in range(15 if ctx.tier == "quick" else 300):
@@ -302,7 +332,7 @@ def run(ctx):
         "rule": "random histories (2-11 steps of set_preference over 10 preferences, set_mathml, getters, navigation) followed by a target preference assignment, an expression and the getters in "
                 "random order with one repeated, compared with a fresh session; preference round trips on a fixed expression; file-read prediction along histories (hooks H2 + H6); two sessions "
                 "in two threads interleaved at random vs each alone. non-trivial = histories compared with fresh",
-        "histories": n_hist, "single_preference_switches": n_switch, "pref_roundtrips": n_rt, "calls_with_predicted_file_reads": n_pred, "thread_interleavings": n_thr,
+        "histories": n_hist, "preference_orders_compared": n_perm, "single_preference_switches": n_switch, "pref_roundtrips": n_rt, "calls_with_predicted_file_reads": n_pred, "thread_interleavings": n_thr,
         "thread_local_blocks_in_src": n_tl, "shared_mutable_statics_found": shared,
         "model_vs_impl_disagreements": [{k: v for k, v in d.items() if k != "lines"} for d in disagreements[:8]], "n_disagreements": len(disagreements),
         "impl_vs_oracle_failures": [{k: v for k, v in f.items() if k not in ("lines", "fresh_lines")} for f in oracle_fail[:8]], "n_oracle_failures": len(oracle_fail),
